@@ -3,8 +3,13 @@
 package value
 
 import (
+	"fmt"
 	"math"
 	"os"
+	"runtime"
+	"strings"
+	"sync"
+	"sync/atomic"
 	"time"
 )
 
@@ -20,18 +25,69 @@ var verifPoison = os.Getenv("VERIF_POISON_DISCARD") != ""
 // VerifSetPoison switches the poisoning on or off (used by in-process harnesses).
 func VerifSetPoison(on bool) { verifPoison = on }
 
+// With the poisoning switched on a discarded object is never re-issued, so an object that arrives at Discard
+// already holding the poison value has been discarded before: a double release (without the hook the object
+// would sit in the pool twice and the next two allocations of its type would be one object).  Every such
+// event is counted and, if VERIF_DOUBLE_DISCARD_LOG names a file, appended to it with the calling functions.
+var (
+	verifDoubleDiscards int64
+	verifDoubleLog      = os.Getenv("VERIF_DOUBLE_DISCARD_LOG")
+	verifDoubleMu       sync.Mutex
+)
+
+// VerifDoubleDiscards returns the number of double releases seen so far.
+func VerifDoubleDiscards() int64 { return atomic.LoadInt64(&verifDoubleDiscards) }
+
+func verifDoubleDiscard(kind string) {
+	atomic.AddInt64(&verifDoubleDiscards, 1)
+	if verifDoubleLog == "" {
+		return
+	}
+	pcs := make([]uintptr, 12)
+	n := runtime.Callers(4, pcs)
+	frames := runtime.CallersFrames(pcs[:n])
+	var names []string
+	for {
+		fr, more := frames.Next()
+		if fr.Function != "" {
+			names = append(names, fmt.Sprintf("%s:%d", fr.Function[strings.LastIndex(fr.Function, "/")+1:], fr.Line))
+		}
+		if !more || len(names) >= 6 {
+			break
+		}
+	}
+	verifDoubleMu.Lock()
+	if f, err := os.OpenFile(verifDoubleLog, os.O_APPEND|os.O_CREATE|os.O_WRONLY, 0o644); err == nil {
+		_, _ = fmt.Fprintf(f, "double_discard %s %s\n", kind, strings.Join(names, " < "))
+		_ = f.Close()
+	}
+	verifDoubleMu.Unlock()
+}
+
 func verifDiscard(p Primary) bool {
 	if !verifPoison {
 		return false
 	}
 	switch v := p.(type) {
 	case *String:
+		if v.literal == VerifPoisonString {
+			verifDoubleDiscard("String")
+		}
 		v.literal = VerifPoisonString
 	case *Integer:
+		if v.value == VerifPoisonInteger {
+			verifDoubleDiscard("Integer")
+		}
 		v.value = VerifPoisonInteger
 	case *Float:
+		if math.Float64bits(v.value) == 0x7FF8_0000_DEAD_BEEF {
+			verifDoubleDiscard("Float")
+		}
 		v.value = math.Float64frombits(0x7FF8_0000_DEAD_BEEF)
 	case *Datetime:
+		if v.value.Equal(time.Unix(-6148914691, 0)) {
+			verifDoubleDiscard("Datetime")
+		}
 		v.value = time.Unix(-6148914691, 0)
 	}
 	return true
